@@ -6,7 +6,7 @@ repo = sys.argv[1]
 base = json.load(open("/root/.vp/BASELINE.json"))["stable_pass"] if os.path.exists("/root/.vp/BASELINE.json") else None
 xml = tempfile.mktemp(suffix=".xml")
 env = dict(os.environ, PYTHONPATH=repo, MPLBACKEND="Agg")
-r = subprocess.run(["/venv/bin/python", "-m", "pytest", "-ra", "-q", "-p", "no:cacheprovider", "--timeout=900",
+r = subprocess.run(["/venv/bin/python", "-m", "pytest", "-ra", "-q", "-p", "no:cacheprovider", "--timeout=%s" % os.environ.get("SUITE_TIMEOUT", "900"),
                     "--continue-on-collection-errors", "--junitxml=" + xml], cwd=repo, env=env, capture_output=True, text=True)
 passed = set()
 try:
